@@ -363,7 +363,8 @@ def run_stage(stage, workdir, seed, tier, result):
         raise ToolError('stage %s produced no scenario (vacuous model instance?)' % tag)
     # "forder" variants: a sample of the scenarios is replayed a second time with every matrix handed to the library stored
     # column-major (same values, other memory layout); the expected behaviour is the same, so the copies share the model's verdicts
-    scripts = scripts + [dict(s, forder=True) for i, s in enumerate(scripts)
+    # (every second copy instead with a negative stride along the column axis: "negstride")
+    scripts = scripts + [dict(s, **({'forder': True} if (i // FORDER_EVERY) % 2 == 0 else {'negstride': True})) for i, s in enumerate(scripts)
                          if i % FORDER_EVERY == 0 and s.get('fam') in FORDER_FAMILIES]
     for i, s in enumerate(scripts):
         s['sc'] = i
